@@ -236,7 +236,7 @@ def gen_model(rnd, opts=None):
         doms.append([a, a + rnd.choice(wchoices)])
     for k in range(min(D, opts.get("bool_doms", 0))):
         doms[k] = [0, 1]
-    if opts.get("big") and rnd.random() < 0.1:
+    if opts.get("big") and not opts.get("nonneg") and rnd.random() < 0.1:  # (cost tables have one column per value)
         s = rnd.choice([10 ** 6, -(10 ** 6)])
         doms = [[a + s, b + s] for a, b in doms]
     idx = list(range(D))
